@@ -13,6 +13,7 @@ import (
 	"sort"
 	"strings"
 	"sync"
+	"sync/atomic"
 	"time"
 
 	"k8s.io/apimachinery/pkg/api/meta"
@@ -57,27 +58,27 @@ type sysOpts struct {
 	SSA         bool `json:"ssa,omitempty"`
 	Timeout     bool `json:"timeout,omitempty"` // reconcile + prune timeouts configured (short real duration)
 	EmitStatus  bool `json:"emitStatus,omitempty"`
-	Foreground  bool `json:"foreground,omitempty"` // propagation policy Foreground instead of the default Background
-	StatusAll   bool `json:"statusAll,omitempty"`  // inventory client built with StatusPolicyAll
+	Foreground  bool `json:"foreground,omitempty"`  // propagation policy Foreground instead of the default Background
+	StatusAll   bool `json:"statusAll,omitempty"`   // inventory client built with StatusPolicyAll
 	PropDefault bool `json:"propDefault,omitempty"` // propagation policy not set by the caller (the library defaults it to Background)
 }
 
 // cancel: "" none | "before-sync" | "wait:<n>:<j>" (during the n-th wait group after j status deliveries) | "mut:<k>" (while mutating request k is in flight)
 type sysRun struct {
-	Kind     string            `json:"kind"` // apply | destroy
-	Objs     []sysObj          `json:"objs"`
-	Opts     sysOpts           `json:"opts"`
-	FailMut  []int             `json:"failMut,omitempty"`
-	FailInvRead []int          `json:"failInvRead,omitempty"` // n-th LIST of the inventory objects fails
-	FailGet  []jid             `json:"failGet,omitempty"`     // every GET of these objects fails
-	InvAlt   bool              `json:"invAlt,omitempty"`      // the local inventory template is named differently from the other runs' template
-	FailCode int               `json:"failCode,omitempty"`    // HTTP status of the injected faults of this run: 0 = 500, 403, 422 (the library treats them alike)
-	Ctrl     map[string]string `json:"ctrl,omitempty"` // id key -> current | stale | never | failed | failed-current | replaced
-	Del      map[string]string `json:"del,omitempty"`  // id key -> gone | finalizer | finalizer-gone
-	Cancel   string            `json:"cancel,omitempty"`
-	WatchErr string            `json:"watchErr,omitempty"` // "" | "wait:<n>:<j>": the watcher reports a fatal error at that point
-	EnvDel   []jid             `json:"envDel,omitempty"`   // objects another actor deletes before this run
-	Initial  []jid             `json:"initial,omitempty"`  // objects whose current status (Current, live generation/uid) the watcher reports before its sync event
+	Kind        string            `json:"kind"` // apply | destroy
+	Objs        []sysObj          `json:"objs"`
+	Opts        sysOpts           `json:"opts"`
+	FailMut     []int             `json:"failMut,omitempty"`
+	FailInvRead []int             `json:"failInvRead,omitempty"` // n-th LIST of the inventory objects fails
+	FailGet     []jid             `json:"failGet,omitempty"`     // every GET of these objects fails
+	InvAlt      bool              `json:"invAlt,omitempty"`      // the local inventory template is named differently from the other runs' template
+	FailCode    int               `json:"failCode,omitempty"`    // HTTP status of the injected faults of this run: 0 = 500, 403, 422 (the library treats them alike)
+	Ctrl        map[string]string `json:"ctrl,omitempty"`        // id key -> current | stale | never | failed | failed-current | replaced
+	Del         map[string]string `json:"del,omitempty"`         // id key -> gone | finalizer | finalizer-gone
+	Cancel      string            `json:"cancel,omitempty"`
+	WatchErr    string            `json:"watchErr,omitempty"` // "" | "wait:<n>:<j>" | "mut:<k>" (while mutating request k is in flight; after the cancellation, if one is scheduled at the same request): the watcher reports a fatal error at that point
+	EnvDel      []jid             `json:"envDel,omitempty"`   // objects another actor deletes before this run
+	Initial     []jid             `json:"initial,omitempty"`  // objects whose current status (Current, live generation/uid) the watcher reports before its sync event
 }
 
 type sysIn struct {
@@ -91,7 +92,7 @@ const (
 	// a second name for the local inventory template: the library finds the stored inventory object by its id label, whatever
 	// it is called, so a run may come with a template of another name than the object an earlier run created
 	sysInvAltName = "inv-renamed"
-	sysInvID   = "inv-1"
+	sysInvID      = "inv-1"
 )
 
 func idKey(j jid) string { return strings.Join(j[:], "|") }
@@ -227,6 +228,27 @@ type scriptedWatcher struct {
 	syncGate chan struct{} // closed to let the sync event out
 	started  chan struct{}
 	once     sync.Once
+	mu       sync.Mutex
+	ctx      context.Context // the context the runner started the watcher under
+	exited   chan struct{}   // closed when the watcher goroutine has returned (its channel is closed)
+}
+
+// stoppedNow: the runner has cancelled the watcher (or never started it).  The runner does so — and drains the watcher's
+// channel — before it returns, hence before the run's event channel closes; a watcher still running after that is a leaked
+// goroutine that would keep issuing LIST/WATCH requests.
+func (w *scriptedWatcher) stoppedNow() bool {
+	w.mu.Lock()
+	ctx := w.ctx
+	w.mu.Unlock()
+	if ctx == nil {
+		return true
+	}
+	select {
+	case <-w.exited:
+		return true
+	default:
+	}
+	return ctx.Err() != nil
 }
 
 type scriptedEv struct {
@@ -235,13 +257,17 @@ type scriptedEv struct {
 }
 
 func newScriptedWatcher() *scriptedWatcher {
-	return &scriptedWatcher{ch: make(chan scriptedEv), syncGate: make(chan struct{}), started: make(chan struct{})}
+	return &scriptedWatcher{ch: make(chan scriptedEv), syncGate: make(chan struct{}), started: make(chan struct{}), exited: make(chan struct{})}
 }
 
 func (w *scriptedWatcher) Watch(ctx context.Context, _ object.ObjMetadataSet, _ watcher.Options) <-chan pollevent.Event {
 	out := make(chan pollevent.Event)
+	w.mu.Lock()
+	w.ctx = ctx
+	w.mu.Unlock()
 	w.once.Do(func() { close(w.started) })
 	go func() {
+		defer close(w.exited)
 		defer close(out)
 		synced := false
 		gate := w.syncGate
@@ -469,14 +495,18 @@ func takeSnapshot(c *fakecluster.Cluster) snapshot {
 // ---------- one run ----------
 
 type runOut struct {
-	Events   [][]any   `json:"events"`
-	Muts     [][]any   `json:"muts"`  // mutating requests: [verb, id, dryRun, precondUID, propagation, result, rejected, #events-before, snapshot-after]
-	Final    snapshot  `json:"final"` // after the channel closed
-	Closed   bool      `json:"closed"`
-	Late     int       `json:"late"` // requests after close
-	Anomaly  string    `json:"anomaly,omitempty"`
-	Panic    string    `json:"panic,omitempty"`
-	Raced    bool      `json:"-"` // a deadline fired before the scripted deliveries of its phase were made (machine too slow): re-run
+	Events  [][]any  `json:"events"`
+	Muts    [][]any  `json:"muts"`  // mutating requests: [verb, id, dryRun, precondUID, propagation, result, rejected, #events-before, snapshot-after]
+	Final   snapshot `json:"final"` // after the channel closed
+	Closed  bool     `json:"closed"`
+	Late    int      `json:"late"` // requests after close
+	Anomaly string   `json:"anomaly,omitempty"`
+	// the caller's context was cancelled by the script (before-sync, wait:…, mut:…) while the run was in progress
+	CancelCalled bool `json:"cancelCalled,omitempty"`
+	// the status watcher the runner started had been stopped by the time the event channel closed
+	WatcherStopped bool   `json:"watcherStopped"`
+	Panic          string `json:"panic,omitempty"`
+	Raced          bool   `json:"-"` // a deadline fired before the scripted deliveries of its phase were made (machine too slow): re-run
 }
 
 const sysTimeout = 500 * time.Millisecond
@@ -574,6 +604,12 @@ func runOne(c *fakecluster.Cluster, run sysRun) (out runOut) {
 	if strings.HasPrefix(run.Cancel, "mut:") {
 		fmt.Sscanf(run.Cancel, "mut:%d", &cancelMut)
 	}
+	watchErrMut := -1
+	if strings.HasPrefix(run.WatchErr, "mut:") && run.Opts.Dry == 0 { // (dry-runs use the library's blind watcher)
+		fmt.Sscanf(run.WatchErr, "mut:%d", &watchErrMut)
+	}
+	var cancelCalled atomic.Bool
+	var atSyncRS atomic.Pointer[pollevent.ResourceStatus] // the status event on whose receipt the reader plays the "at-sync" scene
 	// barrier: accepted by the reader loop only between two events (see below)
 	barrier := make(chan struct{})
 	evIdx := map[int]int{}
@@ -591,8 +627,14 @@ func runOne(c *fakecluster.Cluster, run sysRun) (out runOut) {
 		evIdx[r.MutIdx] = len(out.Events)
 		mu.Unlock()
 		if r.MutIdx == cancelMut {
+			cancelCalled.Store(true)
 			cancel()
 			time.Sleep(20 * time.Millisecond) // let the runner observe the cancellation while the request is in flight
+		}
+		if r.MutIdx == watchErrMut {
+			// returns once the runner has received the error event (the task that issued the request keeps waiting meanwhile)
+			sw.send(pollevent.Event{Type: pollevent.ErrorEvent, Error: fmt.Errorf("injected watcher failure")}, stop)
+			time.Sleep(5 * time.Millisecond)
 		}
 	}
 	c.After = func(r *fakecluster.Req) {
@@ -652,6 +694,7 @@ func runOne(c *fakecluster.Cluster, run sysRun) (out runOut) {
 	}
 
 	// what happens between the plan event and the watcher's sync event: initial statuses, cancellation before sync
+	var sync2 func() bool
 	beforeSync := func() {
 		if run.Opts.Dry != 0 {
 			return // dry-runs use the library's blind watcher
@@ -679,6 +722,34 @@ func runOne(c *fakecluster.Cluster, run sysRun) (out runOut) {
 			sw.fence(stop)
 		}
 		if run.Cancel == "before-sync" {
+			cancelCalled.Store(true)
+			cancel()
+			time.Sleep(5 * time.Millisecond)
+		}
+		if run.Cancel == "at-sync" {
+			// the cancellation and the watcher's sync event both become ready while the runner is busy forwarding a status event
+			// to a consumer that is not reading: when it returns to its select, which of the two it takes is Go's choice
+			var live *unstructured.Unstructured
+			var lid jid
+			for _, j := range run.Initial {
+				if k, ok := keyOf(j); ok {
+					if l := c.Get(k); l != nil {
+						live, lid = l, j
+						break
+					}
+				}
+			}
+			if live != nil && run.Opts.EmitStatus {
+				// the reader does the rest when it receives this event (see the reader loop)
+				m1 := &pollevent.ResourceStatus{Identifier: fromJid(lid), Status: status.CurrentStatus, Resource: live}
+				atSyncRS.Store(m1)
+				if sw.send(pollevent.Event{Type: pollevent.ResourceUpdateEvent, Resource: m1}, stop) {
+					return
+				}
+				atSyncRS.Store(nil)
+			}
+			// (no status event can be forwarded: plain cancellation before the sync event)
+			cancelCalled.Store(true)
 			cancel()
 			time.Sleep(5 * time.Millisecond)
 		}
@@ -690,7 +761,7 @@ func runOne(c *fakecluster.Cluster, run sysRun) (out runOut) {
 	var wg sync.WaitGroup
 	// barrier: accepted by the reader loop only between two events, so after a fence (the runner has sent everything the
 	// previous status event caused) + a barrier the bookkeeping below is up to date
-	sync2 := func() bool {
+	sync2 = func() bool {
 		if !sw.fence(stop) {
 			return false
 		}
@@ -753,6 +824,7 @@ func runOne(c *fakecluster.Cluster, run sysRun) (out runOut) {
 				return false
 			}
 			if run.Cancel == fmt.Sprintf("wait:%d:%d", n, delivered) {
+				cancelCalled.Store(true)
 				cancel()
 				return false
 			}
@@ -830,6 +902,7 @@ func runOne(c *fakecluster.Cluster, run sysRun) (out runOut) {
 			_ = stillPending
 		}
 		if run.Cancel == fmt.Sprintf("wait:%d:end", n) && !done() && anyPending() {
+			cancelCalled.Store(true)
 			cancel()
 		}
 	}
@@ -846,6 +919,19 @@ loop:
 			if !ok {
 				out.Closed = true
 				break loop
+			}
+			if e.Type == event.StatusType && e.StatusEvent.PollResourceInfo != nil && e.StatusEvent.PollResourceInfo == atSyncRS.Load() {
+				atSyncRS.Store(nil)
+				// "at-sync": this goroutine is the only consumer of the event channel; while it is busy here the runner blocks in
+				// SendEvent forwarding the NEXT status event.  Meanwhile the context is cancelled and the watcher offers its sync
+				// event, so that both are ready when the runner gets back to its select — which one it takes is Go's choice.
+				rs2 := *e.StatusEvent.PollResourceInfo
+				sw.send(pollevent.Event{Type: pollevent.ResourceUpdateEvent, Resource: &rs2}, stop)
+				time.Sleep(2 * time.Millisecond)
+				cancelCalled.Store(true)
+				cancel()
+				close(sw.syncGate)
+				time.Sleep(10 * time.Millisecond)
 			}
 			if e.Type == event.StatusType && e.StatusEvent.Identifier == fenceID {
 				continue
@@ -935,9 +1021,11 @@ loop:
 			break loop
 		}
 	}
+	out.WatcherStopped = sw.stoppedNow()
 	stopOnce.Do(func() { close(stop) })
 	c.MarkClosed()
 	wg.Wait()
+	out.CancelCalled = cancelCalled.Load()
 	cancel()
 	time.Sleep(2 * time.Millisecond) // a goroutine that still issues requests after the close shows up in Late
 	out.Final = takeSnapshot(c)
